@@ -5,6 +5,8 @@
 package c10
 
 import (
+	"context"
+	"database/sql"
 	"fmt"
 	"reflect"
 	"sort"
@@ -50,11 +52,15 @@ var autoVariants = []autoVariant{
 	{"TouchedSec", "update", "autoUpdateTime", kUnixSec},
 	{"TouchedMs", "update", "autoUpdateTime:milli", kUnixMilli},
 	{"TouchedNs", "update", "autoUpdateTime:nano", kUnixNano},
+	{"UpdatedAt", "update", "", kPTime}, // *time.Time
+	{"CreatedAt", "create", "", kPTime},
 	{"BornAt", "create", "autoCreateTime", kTime},
 	{"BornMs", "create", "autoCreateTime:milli", kUnixMilli},
 }
 
 var naming = schema.NamingStrategy{}
+
+var dataKinds = []kind{kInt, kString, kBool, kFloat, kPString, kInt, kString, kPInt, kNullStr}
 
 func genModel(rt *rapid.T) *model {
 	m := &model{NK: 1, Fields: []field{{Name: "ID", Col: "id", Kind: kInt, PK: true}}}
@@ -83,8 +89,14 @@ func genModel(rt *rapid.T) *model {
 				f.Perm = rapid.SampledFrom(autoPermTags).Draw(rt, "autoperm")
 			}
 		} else {
-			f = field{Name: fmt.Sprintf("F%d", i), Kind: kind(rapid.IntRange(int(kInt), int(kPString)).Draw(rt, "kind"))}
+			f = field{Name: fmt.Sprintf("F%d", i), Kind: rapid.SampledFrom(dataKinds).Draw(rt, "kind")}
 			f.Perm = rapid.SampledFrom(permTags).Draw(rt, "perm")
+			switch f.Kind {
+			case kInt:
+				f.GoType = rapid.SampledFrom([]string{"", "", "", "int", "int32", "uint"}).Draw(rt, "gotype")
+			case kFloat:
+				f.GoType = rapid.SampledFrom([]string{"", "", "float32"}).Draw(rt, "gotype")
+			}
 		}
 		used[f.Name] = true
 		f.Col = naming.ColumnName("", f.Name)
@@ -105,11 +117,43 @@ func genModel(rt *rapid.T) *model {
 			case kBool:
 				f.Default = int64(1)
 			}
-			if rapid.Bool().Draw(rt, "dbdefault") {
+			switch rapid.IntRange(0, 5).Draw(rt, "dbdefault") {
+			case 0, 1:
 				f.DBDefault = map[kind]string{kInt: "(700+77)", kString: "(lower('DFLT'))", kPString: "(lower('PDFLT'))", kFloat: "(7.5+0.25)", kBool: "(1=1)"}[f.Kind]
+			case 2:
+				if f.Default != nil && f.Kind != kBool {
+					f.DBDefault, f.Default = "null", nil // default:null - the column has no DEFAULT
+				}
+			case 3, 4:
+				// a default gorm parses into a Go value; the column's own DEFAULT stays different
+				switch f.Kind {
+				case kInt:
+					f.GoDefault = int64(555)
+				case kString:
+					f.GoDefault = "gdflt"
+				case kFloat:
+					f.GoDefault = 5.25
+				case kBool:
+					f.GoDefault, f.Default = int64(1), int64(0)
+				}
 			}
 		}
 		m.Fields = append(m.Fields, f)
+	}
+	if rapid.IntRange(0, 3).Draw(rt, "embedded") == 0 {
+		// some data fields move into an embedded struct (value or pointer) with a column prefix
+		m.EmbPtr = rapid.Bool().Draw(rt, "embptr")
+		for i := m.NK; i < len(m.Fields); i++ {
+			if rapid.IntRange(0, 2).Draw(rt, "emb") == 0 {
+				m.Fields[i].Emb = true
+				m.Fields[i].Col = embPrefix + m.Fields[i].Col
+			}
+		}
+	}
+	m.SkipDefaultTx = rapid.IntRange(0, 3).Draw(rt, "skipdefaulttx") == 0
+	m.PrepareStmt = rapid.IntRange(0, 5).Draw(rt, "preparestmt") == 0
+	if rapid.IntRange(0, 5).Draw(rt, "createbatchsize") == 0 {
+		m.CreateBatchSize = rapid.IntRange(1, 3).Draw(rt, "cbs")
 	}
 	nRows := rapid.IntRange(3, 6).Draw(rt, "nrows")
 	if m.NK == 1 {
@@ -163,22 +207,39 @@ func (m *model) revValue(j int64) cell {
 
 // genVal draws a value for field f: zero, a fresh non-zero sentinel, or (map
 // paths, numeric columns) an expression over a column of the same kind.
-func genVal(rt *rapid.T, m *model, fi int, allowExpr bool, label string) gval {
+// exprMode: exprNone; exprUpdate = gorm.Expr over a column, or a sub-query handle (update maps);
+// exprCreate = gorm.Expr over literals (create maps).
+const (
+	exprNone = iota
+	exprUpdate
+	exprCreate
+)
+
+func genVal(rt *rapid.T, m *model, fi int, exprMode int, label string) gval {
 	f := m.Fields[fi]
 	pick := rapid.IntRange(0, 9).Draw(rt, label+".pick")
 	if pick < 3 {
 		return gval{Zero: true, Cell: zeroCell(f)}
 	}
-	if allowExpr && pick == 9 && (f.Kind == kInt || f.Kind == kFloat) && f.Auto == "" {
+	if exprMode == exprUpdate && pick == 9 && (f.Kind == kInt || f.Kind == kFloat) && f.Auto == "" {
 		var srcs []int
 		for i, g := range m.Fields {
 			if g.Kind == f.Kind && g.Auto == "" {
 				srcs = append(srcs, i)
 			}
 		}
-		return gval{Expr: &exprSpec{Src: rapid.SampledFrom(srcs).Draw(rt, label+".src"), N: int64(rapid.IntRange(1, 9).Draw(rt, label+".n"))}}
+		x := &exprSpec{Src: rapid.SampledFrom(srcs).Draw(rt, label+".src"), N: int64(rapid.IntRange(1, 9).Draw(rt, label+".n"))}
+		x.Max = rapid.IntRange(0, 2).Draw(rt, label+".subquery") == 0 // a *gorm.DB sub-query as the value
+		return gval{Expr: x}
 	}
-	n := int64(rapid.IntRange(1, 9).Draw(rt, label+".v"))
+	if exprMode == exprCreate && pick == 9 && f.Kind == kInt && f.Auto == "" {
+		return gval{Expr: &exprSpec{Src: -1, N: int64(rapid.IntRange(1, 9).Draw(rt, label+".n"))}}
+	}
+	return litVal(f, int64(rapid.IntRange(1, 9).Draw(rt, label+".v")))
+}
+
+// litVal is the n-th non-zero literal of field f.
+func litVal(f field, n int64) gval {
 	switch f.Kind {
 	case kInt:
 		return gval{Cell: 90000 + n}
@@ -193,7 +254,17 @@ func genVal(rt *rapid.T, m *model, fi int, allowExpr bool, label string) gval {
 			return gval{Cell: ""} // non-nil pointer to "": not a zero value
 		}
 		return gval{Cell: fmt.Sprintf("np%d", n)}
-	case kTime:
+	case kNullStr:
+		if n == 1 {
+			return gval{Cell: ""} // {String: "", Valid: true}: not a zero value
+		}
+		return gval{Cell: fmt.Sprintf("ns%d", n)}
+	case kPInt:
+		if n == 1 {
+			return gval{Cell: int64(0)} // non-nil pointer to 0
+		}
+		return gval{Cell: 95000 + n}
+	case kTime, kPTime:
 		return gval{Cell: givenBase.Add(time.Duration(n) * time.Minute)}
 	case kUnixSec:
 		return gval{Cell: 1_900_000_000 + n}
@@ -212,6 +283,14 @@ func spell(rt *rapid.T, f field, label string) string {
 	return f.Name
 }
 
+// spellSel: Select/Omit also accept the table-qualified column.
+func spellSel(rt *rapid.T, f field, label string) string {
+	if known, _, _ := f.perms(); known && rapid.IntRange(0, 5).Draw(rt, label+".qualified") == 0 {
+		return tableName + "." + f.Col
+	}
+	return spell(rt, f, label)
+}
+
 // genSelect draws the Select/Omit form. withKey: the primary key may be listed.
 func genSelect(rt *rapid.T, m *model, o *op, withKey bool) string {
 	form := rapid.SampledFrom([]string{"none", "none", "none", "list", "list", "star", "omit", "omit", "star+omit", "list+omit"}).Draw(rt, "selform")
@@ -224,17 +303,17 @@ func genSelect(rt *rapid.T, m *model, o *op, withKey bool) string {
 		for _, i := range data {
 			if rapid.Bool().Draw(rt, "sel") {
 				inSel[i] = true
-				o.Select = append(o.Select, spell(rt, m.Fields[i], "sel"))
+				o.Select = append(o.Select, spellSel(rt, m.Fields[i], "sel"))
 			}
 		}
 		if len(o.Select) == 0 {
 			i := rapid.SampledFrom(data).Draw(rt, "sel1")
 			inSel[i] = true
-			o.Select = append(o.Select, spell(rt, m.Fields[i], "sel1"))
+			o.Select = append(o.Select, spellSel(rt, m.Fields[i], "sel1"))
 		}
 		if withKey && (m.NK == 2 || rapid.IntRange(0, 2).Draw(rt, "selkey") > 0) {
 			for k := 0; k < m.NK; k++ { // members of a composite key are always selected
-				o.Select = append(o.Select, spell(rt, m.Fields[k], "selkey"))
+				o.Select = append(o.Select, spellSel(rt, m.Fields[k], "selkey"))
 			}
 		}
 	}
@@ -244,11 +323,11 @@ func genSelect(rt *rapid.T, m *model, o *op, withKey bool) string {
 	if strings.HasSuffix(form, "omit") {
 		for _, i := range data {
 			if !inSel[i] && rapid.IntRange(0, 2).Draw(rt, "omit") == 0 {
-				o.Omit = append(o.Omit, spell(rt, m.Fields[i], "omit"))
+				o.Omit = append(o.Omit, spellSel(rt, m.Fields[i], "omit"))
 			}
 		}
 		if withKey && m.NK == 1 && rapid.IntRange(0, 3).Draw(rt, "omitkey") == 0 {
-			o.Omit = append(o.Omit, spell(rt, m.Fields[0], "omitkey"))
+			o.Omit = append(o.Omit, spellSel(rt, m.Fields[0], "omitkey"))
 		}
 		if len(o.Omit) == 0 {
 			var free []int
@@ -261,7 +340,7 @@ func genSelect(rt *rapid.T, m *model, o *op, withKey bool) string {
 				return strings.TrimSuffix(form, "+omit") // every field is selected: nothing left to omit
 			}
 			i := rapid.SampledFrom(free).Draw(rt, "omit1")
-			o.Omit = append(o.Omit, spell(rt, m.Fields[i], "omit1"))
+			o.Omit = append(o.Omit, spellSel(rt, m.Fields[i], "omit1"))
 		}
 	}
 	return form
@@ -309,7 +388,7 @@ func genCond(rt *rapid.T, m *model) *cond {
 func genStructVals(rt *rapid.T, m *model, label string) map[int]gval {
 	vals := map[int]gval{}
 	for i := m.NK; i < len(m.Fields); i++ {
-		if g := genVal(rt, m, i, false, fmt.Sprintf("%s.f%d", label, i)); !g.Zero {
+		if g := genVal(rt, m, i, exprNone, fmt.Sprintf("%s.f%d", label, i)); !g.Zero {
 			vals[i] = g
 		}
 	}
@@ -319,7 +398,7 @@ func genStructVals(rt *rapid.T, m *model, label string) map[int]gval {
 // genKVs draws map entries over the non-key fields. noAutoUpdate: do not name a
 // tracked update-time field (domain: for a hook-running update the statement
 // says both "every given key is written" and "refreshed").
-func genKVs(rt *rapid.T, m *model, noAutoUpdate, noIgnored, allowExpr bool, min int, label string) []kv {
+func genKVs(rt *rapid.T, m *model, noAutoUpdate, noIgnored bool, allowExpr int, min int, label string) []kv {
 	var out []kv
 	var elig []int
 	for i := m.NK; i < len(m.Fields); i++ {
@@ -360,6 +439,7 @@ var opKinds = []string{
 	"updates-struct", "create-maps", "update", "save-slice", "save", "create",
 	"firstorcreate-map", "firstorcreate-struct",
 }
+
 func genOp(rt *rapid.T, m *model) (*op, string) {
 	o := &op{Kind: rapid.SampledFrom(opKinds).Draw(rt, "op")}
 	var selForm string
@@ -367,6 +447,11 @@ func genOp(rt *rapid.T, m *model) (*op, string) {
 		// domain: "first" orders by the prioritised key member only; with a composite key the found
 		// record is not determined
 		o.Kind = "updates-map"
+	}
+	switch o.Kind {
+	case "updates-struct", "updates-map", "update":
+		// Session{SkipHooks: true}: the update is then not a hook-running one
+		o.Hist.SkipHooks = rapid.IntRange(0, 5).Draw(rt, "skiphooks") == 0
 	}
 	switch o.Kind {
 	case "firstorcreate-map", "firstorcreate-struct":
@@ -387,7 +472,7 @@ func genOp(rt *rapid.T, m *model) (*op, string) {
 			o.Cond = &cond{Form: "ids", IDs: []int64{m.Rows[rapid.IntRange(0, len(m.Rows)-1).Draw(rt, "foundrow")].ID, 40}}
 		}
 		if o.Kind == "firstorcreate-map" {
-			o.Map = genKVs(rt, m, true, false, false, 1, "a")
+			o.Map = genKVs(rt, m, true, false, exprNone, 1, "a")
 		} else {
 			o.Struct = genStructVals(rt, m, "a")
 			for i, f := range m.Fields {
@@ -425,7 +510,7 @@ func genOp(rt *rapid.T, m *model) (*op, string) {
 	case "updates-map", "updatecolumns-map":
 		genTarget(rt, m, o, true)
 		selForm = genSelect(rt, m, o, false)
-		o.Map = genKVs(rt, m, o.hooks(), false, true, 1, "m")
+		o.Map = genKVs(rt, m, o.hooks(), false, exprUpdate, 1, "m")
 	case "update", "updatecolumn":
 		genTarget(rt, m, o, true)
 		selForm = genSelect(rt, m, o, false)
@@ -436,7 +521,7 @@ func genOp(rt *rapid.T, m *model) (*op, string) {
 			}
 		}
 		i := rapid.SampledFrom(elig).Draw(rt, "col")
-		o.Map = []kv{{Key: spell(rt, m.Fields[i], "col"), F: i, V: genVal(rt, m, i, true, "colv")}}
+		o.Map = []kv{{Key: spell(rt, m.Fields[i], "col"), F: i, V: genVal(rt, m, i, exprUpdate, "colv")}}
 	case "save":
 		switch k := rapid.IntRange(0, 9).Draw(rt, "savekey"); {
 		case k <= 1:
@@ -457,7 +542,54 @@ func genOp(rt *rapid.T, m *model) (*op, string) {
 	default:
 		selForm = genCreate(rt, m, o)
 	}
+	genHistory(rt, m, o)
 	return o, selForm
+}
+
+// genHistory draws how the chain value came about, the Go shape of the value and the SetColumn callback.
+func genHistory(rt *rapid.T, m *model, o *op) {
+	h := &o.Hist
+	h.Handle = rapid.SampledFrom([]string{"", "", "", "", "transaction", "begin-commit"}).Draw(rt, "handle")
+	h.Decoy = rapid.IntRange(0, 3).Draw(rt, "decoy") == 0
+	h.Context = rapid.IntRange(0, 5).Draw(rt, "context") == 0
+	h.Scopes = o.Cond != nil && rapid.IntRange(0, 3).Draw(rt, "scopes") == 0
+	h.SelectSlice = o.Select != nil && rapid.IntRange(0, 2).Draw(rt, "selectslice") == 0
+	update := false
+	switch o.Kind {
+	case "updates-struct", "updatecolumns-struct", "updates-map", "updatecolumns-map", "update", "updatecolumn":
+		update = true
+	}
+	// Returning{}: the update then runs as a query whose rows are scanned into the (pointer) model
+	if ((update && o.Mode != "value") || o.Kind == "create") && rapid.IntRange(0, 4).Draw(rt, "returning") == 0 {
+		h.Returning = true
+	}
+	switch o.Kind {
+	case "create-slice", "save-slice":
+		o.Form = rapid.SampledFrom([]string{"", "", "ptr-elems", "array"}).Draw(rt, "form")
+	case "create-batches":
+		o.Form = rapid.SampledFrom([]string{"", "", "ptr-elems"}).Draw(rt, "form")
+	case "create-map", "updates-map", "updatecolumns-map":
+		o.Form = rapid.SampledFrom([]string{"", "", "", "ptr-map"}).Draw(rt, "form")
+	}
+	if o.ModelKeys != nil {
+		o.KeysPtr = rapid.IntRange(0, 2).Draw(rt, "keysptr") == 0
+	}
+	// a registered callback sets one column through Statement.SetColumn
+	eligible := o.Select == nil && o.ModelKeys == nil && !o.Hist.SkipHooks && o.Form == "" && // (SetColumn rejects a *map value)
+		(o.Kind == "updates-map" || o.Kind == "create" ||
+			(o.Kind == "updates-struct" && (o.Mode == "model+value" || o.Mode == "model+pointer" || o.Mode == "pointer" || o.Mode == "same")))
+	if eligible && rapid.IntRange(0, 4).Draw(rt, "setcolumn") == 0 {
+		var cand []int
+		for i := m.NK; i < len(m.Fields); i++ {
+			if m.Fields[i].Auto == "" {
+				cand = append(cand, i)
+			}
+		}
+		if len(cand) > 0 {
+			i := rapid.SampledFrom(cand).Draw(rt, "setcol")
+			o.SetCol = &kv{Key: spell(rt, m.Fields[i], "setcol"), F: i, V: litVal(m.Fields[i], int64(rapid.IntRange(2, 9).Draw(rt, "setcolv")))}
+		}
+	}
 }
 
 // genTarget draws model key and/or condition (never neither: that is C09's subject).
@@ -520,7 +652,10 @@ func genCreate(rt *rapid.T, m *model, o *op) string {
 	if o.Kind == "create-batches" {
 		o.Batch = rapid.IntRange(1, 3).Draw(rt, "batch")
 	}
-	o.Conflict = rapid.SampledFrom([]string{"", "", "nothing", "updateall", "updateall", "doupdates", "doupdates"}).Draw(rt, "conflict")
+	if harness.Thorough() && n > 1 && rapid.IntRange(0, 9).Draw(rt, "bigbatch") == 0 {
+		n = rapid.IntRange(5, 25).Draw(rt, "nbig") // thorough only: batches beyond a handful of rows
+	}
+	o.Conflict = rapid.SampledFrom([]string{"", "", "nothing", "updateall", "updateall", "doupdates", "doupdates", "doassign"}).Draw(rt, "conflict")
 	hit := o.Conflict != ""
 	if o.Kind == "save-slice" {
 		o.Conflict, hit = "", true // Save resolves key collisions itself
@@ -532,7 +667,7 @@ func genCreate(rt *rapid.T, m *model, o *op) string {
 	var keys []kv // key set shared by the rows of a map create
 	if isMap {
 		// domain: a map key naming an ignored field is not generated on create paths (see report)
-		keys = genKVs(rt, m, false, true, false, 1, "m")
+		keys = genKVs(rt, m, false, true, exprNone, 1, "m")
 		if len(keys) == 0 { // every field is ignored: nothing a map could name
 			isMap = false
 			o.Kind = map[string]string{"create-map": "create", "create-maps": "create-slice"}[o.Kind]
@@ -555,7 +690,7 @@ func genCreate(rt *rapid.T, m *model, o *op) string {
 		}
 		if isMap {
 			for _, e := range keys {
-				row.Keys = append(row.Keys, kv{Key: e.Key, F: e.F, V: genVal(rt, m, e.F, false, fmt.Sprintf("r%d.f%d", r, e.F))})
+				row.Keys = append(row.Keys, kv{Key: e.Key, F: e.F, V: genVal(rt, m, e.F, exprCreate, fmt.Sprintf("r%d.f%d", r, e.F))})
 			}
 			if row.PK != 0 {
 				row.Keys = append(row.Keys, kv{Key: spell(rt, m.Fields[0], "keykey"), F: 0, V: gval{Cell: row.PK}})
@@ -613,29 +748,29 @@ func genCreate(rt *rapid.T, m *model, o *op) string {
 		o.Select, o.Omit, selForm = nil, nil, "none"
 		sel = m.selection(o)
 		if !isMap && n > 1 {
-		// domain (SQLite): a multi-row INSERT cannot say DEFAULT for one element only, so the elements of
-		// one batch carry a value for a database-default column either all or none
-		for i, f := range m.Fields {
-			if f.DBDefault == "" {
-				continue
-			}
-			var first *gval
-			for _, r := range o.Rows {
-				if g, ok := r.Vals[i]; ok && first == nil {
-					g := g
-					first = &g
+			// domain (SQLite): a multi-row INSERT cannot say DEFAULT for one element only, so the elements of
+			// one batch carry a value for a database-default column either all or none
+			for i, f := range m.Fields {
+				if f.DBDefault == "" {
+					continue
 				}
-			}
-			if first != nil {
+				var first *gval
 				for _, r := range o.Rows {
-					if _, ok := r.Vals[i]; !ok {
-						r.Vals[i] = *first
+					if g, ok := r.Vals[i]; ok && first == nil {
+						g := g
+						first = &g
+					}
+				}
+				if first != nil {
+					for _, r := range o.Rows {
+						if _, ok := r.Vals[i]; !ok {
+							r.Vals[i] = *first
+						}
 					}
 				}
 			}
 		}
-	}
-	if predict(m, &table{rows: map[rkey][]cell{}}, o).empty {
+		if predict(m, &table{rows: map[rkey][]cell{}}, o).empty {
 			for i := range o.Rows {
 				o.Rows[i].PK = 300 + int64(i)
 				if isMap {
@@ -644,7 +779,7 @@ func genCreate(rt *rapid.T, m *model, o *op) string {
 			}
 		}
 	}
-	if o.Conflict == "doupdates" {
+	if o.Conflict == "doupdates" || o.Conflict == "doassign" {
 		// D: the clause names permitted columns of the proposed rows only
 		var elig []int
 		for i := m.NK; i < len(m.Fields); i++ {
@@ -674,18 +809,35 @@ func genCreate(rt *rapid.T, m *model, o *op) string {
 		if len(o.DoCols) == 0 {
 			o.Conflict = "nothing"
 		}
+		if o.Conflict == "doassign" {
+			o.DoVals = map[int]gval{}
+			for _, i := range o.DoCols {
+				o.DoVals[i] = genVal(rt, m, i, exprNone, fmt.Sprintf("doval%d", i))
+			}
+		}
 	}
 	return selForm
 }
 
 // ---- execution through gorm -----------------------------------------------------------------
 
+// subq marks a value that is a sub-query handle; mapOf turns it into a *gorm.DB.
+type subq struct{ col string }
+
 func goValue(m *model, fi int, g gval) interface{} {
 	f := m.Fields[fi]
 	if g.Expr != nil {
+		switch {
+		case g.Expr.Max:
+			return subq{m.Fields[g.Expr.Src].Col}
+		case g.Expr.Src < 0:
+			return gorm.Expr("? + ?", int64(90000), g.Expr.N)
+		}
 		return gorm.Expr("`"+m.Fields[g.Expr.Src].Col+"` + ?", g.Expr.N)
 	}
 	switch f.Kind {
+	case kInt, kFloat:
+		return reflect.ValueOf(g.Cell).Convert(f.goType()).Interface()
 	case kBool:
 		return g.Cell.(int64) != 0
 	case kPString:
@@ -694,6 +846,23 @@ func goValue(m *model, fi int, g gval) interface{} {
 		}
 		s := g.Cell.(string)
 		return &s
+	case kPInt:
+		if g.Cell == nil {
+			return (*int64)(nil)
+		}
+		x := g.Cell.(int64)
+		return &x
+	case kNullStr:
+		if g.Cell == nil {
+			return sql.NullString{}
+		}
+		return sql.NullString{String: g.Cell.(string), Valid: true}
+	case kPTime:
+		if g.Cell == nil {
+			return (*time.Time)(nil)
+		}
+		t := g.Cell.(time.Time)
+		return &t
 	}
 	return g.Cell
 }
@@ -701,17 +870,24 @@ func goValue(m *model, fi int, g gval) interface{} {
 func (m *model) newValue(pk int64, pk2 cell, vals map[int]gval) reflect.Value {
 	p := reflect.New(m.Typ)
 	v := p.Elem()
-	v.Field(0).SetInt(pk)
+	m.fieldOf(v, 0).SetInt(pk)
 	if m.NK == 2 {
 		switch x := pk2.(type) {
 		case int64:
-			v.Field(1).SetInt(x)
+			m.fieldOf(v, 1).SetInt(x)
 		case string:
-			v.Field(1).SetString(x)
+			m.fieldOf(v, 1).SetString(x)
 		}
 	}
 	for i, g := range vals {
-		v.Field(i).Set(reflect.ValueOf(goValue(m, i, g)))
+		m.fieldOf(v, i).Set(reflect.ValueOf(goValue(m, i, g)))
+	}
+	if m.EmbPtr && m.embTyp != nil && vals != nil {
+		// domain: a value struct always carries its embedded struct (what gorm writes for the members of a
+		// nil embedded pointer - NULL or the zero value - is not documented)
+		if e := v.Field(m.embIdx); e.IsNil() {
+			e.Set(reflect.New(m.embTyp))
+		}
 	}
 	return p
 }
@@ -721,6 +897,13 @@ func modelValue(m *model, o *op) interface{} {
 	if o.ModelKeys == nil {
 		return m.newValue(o.PK, o.PK2, nil).Interface()
 	}
+	if o.KeysPtr {
+		sl := reflect.New(reflect.SliceOf(reflect.PtrTo(m.Typ)))
+		for _, k := range o.ModelKeys {
+			sl.Elem().Set(reflect.Append(sl.Elem(), m.newValue(k.ID, k.Rev, nil)))
+		}
+		return sl.Interface()
+	}
 	sl := reflect.New(reflect.SliceOf(m.Typ))
 	for _, k := range o.ModelKeys {
 		sl.Elem().Set(reflect.Append(sl.Elem(), m.newValue(k.ID, k.Rev, nil).Elem()))
@@ -728,42 +911,126 @@ func modelValue(m *model, o *op) interface{} {
 	return sl.Interface()
 }
 
-func mapOf(m *model, kvs []kv) map[string]interface{} {
+func mapOf(db *gorm.DB, m *model, kvs []kv) map[string]interface{} {
 	out := map[string]interface{}{}
 	for _, e := range kvs {
 		v := goValue(m, e.F, e.V)
-		if p, ok := v.(*string); ok && p == nil {
-			v = nil
+		switch p := v.(type) {
+		case *string:
+			if p == nil {
+				v = nil
+			}
+		case *int64:
+			if p == nil {
+				v = nil
+			}
+		case *time.Time:
+			if p == nil {
+				v = nil
+			}
+		case subq:
+			v = db.Session(&gorm.Session{NewDB: true}).Table(tableName).Select("max(`" + p.col + "`)")
 		}
 		out[e.Key] = v
 	}
 	return out
 }
 
+type ctxKey struct{}
+
+// run executes the operation on a handle with the drawn history.
 func run(d *testdb.DB, m *model, o *op) error {
-	tx := d.DB.Table(tableName)
+	base := d.DB
+	if o.SetCol != nil {
+		name, val := o.SetCol.Key, goValue(m, o.SetCol.F, o.SetCol.V)
+		fn := func(tx *gorm.DB) {
+			if tx.Statement.Schema != nil {
+				tx.Statement.SetColumn(name, val)
+			}
+		}
+		var err error
+		if o.isCreate() {
+			err = base.Callback().Create().Before("gorm:create").Register("c10:setcolumn", fn)
+		} else {
+			err = base.Callback().Update().Before("gorm:update").Register("c10:setcolumn", fn)
+		}
+		if err != nil {
+			panic("harness: register callback: " + err.Error())
+		}
+	}
+	if o.Hist.Context {
+		base = base.WithContext(context.WithValue(context.Background(), ctxKey{}, "c10"))
+	}
+	switch o.Hist.Handle {
+	case "transaction":
+		return base.Transaction(func(tx *gorm.DB) error { return exec(tx, m, o) })
+	case "begin-commit":
+		tx := base.Begin()
+		if tx.Error != nil {
+			panic("harness: begin: " + tx.Error.Error())
+		}
+		if err := exec(tx, m, o); err != nil {
+			tx.Rollback()
+			return err
+		}
+		return tx.Commit().Error
+	}
+	return exec(base, m, o)
+}
+
+func exec(db *gorm.DB, m *model, o *op) error {
+	tx := db.Table(tableName)
+	if o.Hist.Decoy {
+		// other chains are derived from the same parent and finished first: nothing of them may leak
+		parent := tx.Session(&gorm.Session{})
+		sink := reflect.New(reflect.SliceOf(m.Typ)).Interface()
+		last := m.Fields[len(m.Fields)-1]
+		if err := parent.Select("id").Omit(last.Col).Where("1 = 0").Find(sink).Error; err != nil {
+			panic("harness: decoy query: " + err.Error())
+		}
+		if err := parent.Model(m.newValue(0, m.revValue(0), nil).Interface()).Where("1 = 0").Select("*").Omit(last.Name).
+			Updates(map[string]interface{}{m.Fields[m.NK].Name: nil}).Error; err != nil {
+			panic("harness: decoy update: " + err.Error())
+		}
+		_ = parent.Clauses(clause.OnConflict{DoNothing: true}).Where("id = ?", -1)
+		tx = parent
+	}
 	if c := o.Cond; c != nil {
-		col := "`" + m.Fields[c.F].Col + "`"
-		switch c.Form {
-		case "ids":
-			tx = tx.Where("id IN ?", c.IDs)
-		case "eq":
-			tx = tx.Where(col+" = ?", c.V)
-		case "ne":
-			tx = tx.Where(col+" <> ?", c.V)
-		case "map":
-			tx = tx.Where(map[string]interface{}{m.Fields[c.F].Col: c.V})
+		apply := func(tx *gorm.DB) *gorm.DB {
+			col := "`" + m.Fields[c.F].Col + "`"
+			switch c.Form {
+			case "ids":
+				return tx.Where("id IN ?", c.IDs)
+			case "eq":
+				return tx.Where(col+" = ?", c.V)
+			case "ne":
+				return tx.Where(col+" <> ?", c.V)
+			}
+			return tx.Where(map[string]interface{}{m.Fields[c.F].Col: c.V})
+		}
+		if o.Hist.Scopes {
+			tx = tx.Scopes(apply)
+		} else {
+			tx = apply(tx)
 		}
 	}
 	if o.Select != nil {
-		rest := make([]interface{}, len(o.Select)-1)
-		for i, s := range o.Select[1:] {
-			rest[i] = s
+		if o.Hist.SelectSlice {
+			tx = tx.Select(append([]string(nil), o.Select...))
+		} else {
+			rest := make([]interface{}, len(o.Select)-1)
+			for i, s := range o.Select[1:] {
+				rest[i] = s
+			}
+			tx = tx.Select(o.Select[0], rest...)
 		}
-		tx = tx.Select(o.Select[0], rest...)
 	}
 	if o.Omit != nil {
 		tx = tx.Omit(o.Omit...)
+	}
+	target := []clause.Column{{Name: "id"}}
+	if m.NK == 2 {
+		target = append(target, clause.Column{Name: m.Fields[1].Col})
 	}
 	switch o.Conflict {
 	case "nothing":
@@ -775,11 +1042,26 @@ func run(d *testdb.DB, m *model, o *op) error {
 		for i, c := range o.DoCols {
 			cols[i] = m.Fields[c].Col
 		}
-		target := []clause.Column{{Name: "id"}}
-		if m.NK == 2 {
-			target = append(target, clause.Column{Name: m.Fields[1].Col})
-		}
 		tx = tx.Clauses(clause.OnConflict{Columns: target, DoUpdates: clause.AssignmentColumns(cols)})
+	case "doassign":
+		lit := map[string]interface{}{}
+		for _, c := range o.DoCols {
+			lit[m.Fields[c].Col] = goValue(m, c, o.DoVals[c])
+		}
+		tx = tx.Clauses(clause.OnConflict{Columns: target, DoUpdates: clause.Assignments(lit)})
+	}
+	if o.Hist.Returning {
+		tx = tx.Clauses(clause.Returning{})
+	}
+	if o.Hist.SkipHooks {
+		tx = tx.Session(&gorm.Session{SkipHooks: true})
+	}
+	mapArg := func(kvs []kv) interface{} {
+		mp := mapOf(db, m, kvs)
+		if o.Form == "ptr-map" {
+			return &mp
+		}
+		return mp
 	}
 
 	switch o.Kind {
@@ -794,12 +1076,12 @@ func run(d *testdb.DB, m *model, o *op) error {
 			}
 			v := m.newValue(vk, vk2, o.Struct)
 			if o.Mode == "model+other" {
-				w := &model{NK: m.NK, Fields: append([]field(nil), m.Fields...)}
+				w := &model{NK: m.NK, EmbPtr: m.EmbPtr, Fields: append([]field(nil), m.Fields...)}
 				for i := range w.Fields {
 					w.Fields[i].Perm = o.Other[i]
 					if known, _, _ := w.Fields[i].perms(); !known {
 						w.Fields[i].ColTag = false // an ignored field carries no column tag
-					} else if w.Fields[i].Col != naming.ColumnName("", w.Fields[i].Name) {
+					} else if w.Fields[i].baseCol() != naming.ColumnName("", w.Fields[i].Name) {
 						w.Fields[i].ColTag = true // same physical column as the model's field
 					}
 				}
@@ -825,18 +1107,18 @@ func run(d *testdb.DB, m *model, o *op) error {
 		}
 		return tx.UpdateColumns(val).Error
 	case "updates-map":
-		return tx.Model(modelValue(m, o)).Updates(mapOf(m, o.Map)).Error
+		return tx.Model(modelValue(m, o)).Updates(mapArg(o.Map)).Error
 	case "updatecolumns-map":
-		return tx.Model(modelValue(m, o)).UpdateColumns(mapOf(m, o.Map)).Error
+		return tx.Model(modelValue(m, o)).UpdateColumns(mapArg(o.Map)).Error
 	case "update":
-		return tx.Model(modelValue(m, o)).Update(o.Map[0].Key, mapOf(m, o.Map)[o.Map[0].Key]).Error
+		return tx.Model(modelValue(m, o)).Update(o.Map[0].Key, mapOf(db, m, o.Map)[o.Map[0].Key]).Error
 	case "updatecolumn":
-		return tx.Model(modelValue(m, o)).UpdateColumn(o.Map[0].Key, mapOf(m, o.Map)[o.Map[0].Key]).Error
+		return tx.Model(modelValue(m, o)).UpdateColumn(o.Map[0].Key, mapOf(db, m, o.Map)[o.Map[0].Key]).Error
 	case "firstorcreate-map", "firstorcreate-struct":
 		if o.ExplicitModel {
 			tx = tx.Model(m.newValue(0, m.revValue(0), nil).Interface())
 		}
-		var assign interface{} = mapOf(m, o.Map)
+		var assign interface{} = mapOf(db, m, o.Map)
 		if o.Kind == "firstorcreate-struct" {
 			assign = m.newValue(0, m.revValue(0), o.Struct).Elem().Interface()
 		}
@@ -846,9 +1128,23 @@ func run(d *testdb.DB, m *model, o *op) error {
 	case "create":
 		return tx.Create(m.newValue(o.Rows[0].PK, o.Rows[0].PK2, o.Rows[0].Vals).Interface()).Error
 	case "create-slice", "create-batches", "save-slice":
-		sl := reflect.New(reflect.SliceOf(m.Typ))
-		for _, r := range o.Rows {
-			sl.Elem().Set(reflect.Append(sl.Elem(), m.newValue(r.PK, r.PK2, r.Vals).Elem()))
+		var sl reflect.Value
+		switch o.Form {
+		case "ptr-elems":
+			sl = reflect.New(reflect.SliceOf(reflect.PtrTo(m.Typ)))
+			for _, r := range o.Rows {
+				sl.Elem().Set(reflect.Append(sl.Elem(), m.newValue(r.PK, r.PK2, r.Vals)))
+			}
+		case "array":
+			sl = reflect.New(reflect.ArrayOf(len(o.Rows), m.Typ))
+			for i, r := range o.Rows {
+				sl.Elem().Index(i).Set(m.newValue(r.PK, r.PK2, r.Vals).Elem())
+			}
+		default:
+			sl = reflect.New(reflect.SliceOf(m.Typ))
+			for _, r := range o.Rows {
+				sl.Elem().Set(reflect.Append(sl.Elem(), m.newValue(r.PK, r.PK2, r.Vals).Elem()))
+			}
 		}
 		if o.Kind == "create-slice" {
 			return tx.Create(sl.Interface()).Error
@@ -858,14 +1154,14 @@ func run(d *testdb.DB, m *model, o *op) error {
 		}
 		return tx.CreateInBatches(sl.Interface(), o.Batch).Error
 	case "create-map":
-		return tx.Model(m.newValue(0, m.revValue(0), nil).Interface()).Create(mapOf(m, o.Rows[0].Keys)).Error
+		return tx.Model(m.newValue(0, m.revValue(0), nil).Interface()).Create(mapArg(o.Rows[0].Keys)).Error
 	case "create-maps":
 		var ms []map[string]interface{}
 		for _, r := range o.Rows {
-			ms = append(ms, mapOf(m, r.Keys))
+			ms = append(ms, mapOf(db, m, r.Keys))
 		}
 		// &ms, not ms: with a RETURNING dialect gorm.Scan cannot back-fill a non-pointer []map (an
-		// error, no write - outside this property; see the report)
+		// error, no write - outside this property; see COVERAGE.md)
 		return tx.Model(m.newValue(0, m.revValue(0), nil).Interface()).Create(&ms).Error
 	}
 	panic("harness: op kind " + o.Kind)
@@ -903,7 +1199,14 @@ func analyse(m *model, o *op, selForm string) caseInfo {
 			ci.classes["given-tag:"+f.Perm] = true
 		}
 		if g.Expr != nil {
-			ci.classes["value:expr"] = true
+			switch {
+			case g.Expr.Max:
+				ci.classes["value:subquery-handle"] = true
+			case g.Expr.Src < 0:
+				ci.classes["value:expr-in-create-map"] = true
+			default:
+				ci.classes["value:expr"] = true
+			}
 		}
 	}
 	structVals := func(vals map[int]gval) {
@@ -951,6 +1254,24 @@ func analyse(m *model, o *op, selForm string) caseInfo {
 		if f.ColTag {
 			ci.classes["column-tag"] = true
 		}
+		shape := f.Kind.String()
+		if f.GoType != "" {
+			shape = f.GoType
+		}
+		ci.classes["type:"+shape] = true
+		if f.GoDefault != nil {
+			ci.classes["default:parsed-value"] = true
+		}
+		if f.DBDefault == "null" {
+			ci.classes["default:null"] = true
+		}
+		if f.Emb {
+			if m.EmbPtr {
+				ci.classes["embedded:pointer"] = true
+			} else {
+				ci.classes["embedded:value"] = true
+			}
+		}
 		if f.DBDefault != "" {
 			ci.classes["db-default-expr"] = true
 			if f.restricted() {
@@ -987,6 +1308,27 @@ func analyse(m *model, o *op, selForm string) caseInfo {
 	}
 	if o.ExplicitModel {
 		ci.classes["firstorcreate:explicit-model"] = true
+	}
+	if h := o.Hist; true {
+		for _, x := range []struct {
+			on   bool
+			name string
+		}{{h.Handle != "", "history:" + h.Handle}, {h.Decoy, "history:session-parent+decoys"}, {h.Context, "history:with-context"},
+			{h.Scopes, "history:cond-via-scopes"}, {h.SkipHooks, "history:Session{SkipHooks}"}, {h.Returning, "clause:Returning"},
+			{h.SelectSlice, "select-arg:[]string"}, {o.Form != "", "form:" + o.Form}, {o.KeysPtr, "form:model-[]*T"},
+			{o.SetCol != nil, "callback:SetColumn"}, {m.SkipDefaultTx, "config:SkipDefaultTransaction"}, {m.PrepareStmt, "config:PrepareStmt"},
+			{m.CreateBatchSize > 0, "config:CreateBatchSize"}, {len(o.Rows) > 4, "size:batch>4"}} {
+			if x.on {
+				ci.classes[x.name] = true
+			}
+		}
+	}
+	for _, lst := range [][]string{o.Select, o.Omit} {
+		for _, n := range lst {
+			if strings.HasPrefix(n, tableName+".") {
+				ci.classes["spelling:table.column"] = true
+			}
+		}
 	}
 	if m.NK == 2 {
 		ci.classes["key:composite-"+m.Fields[1].Kind.String()] = true
@@ -1083,6 +1425,11 @@ func checkCase(rt *rapid.T, m *model, o *op, selForm string) {
 	}
 	if returningSingleUnreadableDefault(m, o) && harness.OpenClass("C10", "returning-single-unreadable-default") {
 		evid.Excluded("returning-single-unreadable-default")
+		return
+	}
+	if o.Kind == "create-maps" && !m.NoRet && m.CreateBatchSize > 0 && harness.OpenClass("C10", "create-maps-returning") {
+		// (the non-pointer form of the finding is never generated: create-maps passes &[]map)
+		evid.Excluded("create-maps-returning")
 		return
 	}
 	if doNothingUnreadableDefault(m, o) && harness.OpenClass("C10", "donothing-unreadable-default") {
@@ -1235,5 +1582,33 @@ func TestC10WitnessReturningSingleUnreadableDefault(t *testing.T) {
 	var n int
 	if err := d.SQL.QueryRow("SELECT count(*) FROM c10_w3 WHERE code = 'x'").Scan(&n); err != nil || n != 1 {
 		t.Errorf("C10 violated: expected one new row holding the column default, found %d (%v)", n, err)
+	}
+}
+
+// The documented batch insert from maps, db.Model(&T{}).Create([]map[string]interface{}{...}), on a
+// RETURNING dialect: gorm.Scan has a case for *[]map but none for []map, so the RETURNING row is scanned
+// into a map element ("unsupported Scan", the INSERT is rolled back). With Config.CreateBatchSize the
+// pointer form reaches the same code (CreateInBatches hands sub-slices on by value) and panics.
+func TestC10WitnessCreateMapsReturning(t *testing.T) {
+	d := testdb.Open(testdb.Options{Config: gorm.Config{NowFunc: func() time.Time { return nowTime }}})
+	defer d.Close()
+	if _, err := d.SQL.Exec("CREATE TABLE c10_w (id integer PRIMARY KEY, name text, qty integer)"); err != nil {
+		t.Fatalf("harness: %v", err)
+	}
+	var err error
+	func() {
+		defer func() {
+			if r := recover(); r != nil {
+				err = fmt.Errorf("panic inside gorm: %v", r)
+			}
+		}()
+		err = d.DB.Table("c10_w").Model(&witnessItem{}).Create([]map[string]interface{}{{"Name": "a", "Qty": 1}, {"Name": "b", "Qty": 2}}).Error
+	}()
+	if err != nil {
+		t.Fatalf("C10 violated: Model(&Item{}).Create([]map[string]interface{}{{Name:a,Qty:1},{Name:b,Qty:2}}): %v", err)
+	}
+	var n int
+	if err := d.SQL.QueryRow("SELECT count(*) FROM c10_w").Scan(&n); err != nil || n != 2 {
+		t.Errorf("C10 violated: expected two new rows, found %d (%v)", n, err)
 	}
 }
